@@ -257,6 +257,35 @@ class Enumerate:
         self.run(case, ctx)
 
 
+class Fuzz:
+    """Coverage-guided campaign (Atheris / libFuzzer), thorough tier only, run by vlib/fuzz_driver.py in a
+    subprocess per shard.  mode="structured": libFuzzer mutates Hypothesis's choice buffer of `strategy(tier)`
+    (the strategy of an existing @given sub-check) and `run(case, ctx)` is that sub-check's oracle.
+    mode="raw": libFuzzer mutates the document bytes; `decode(bytes) -> case | None`, `seeds(tier) -> [bytes]`
+    (used by odd shards; even shards start from an empty corpus).  `instrument` lists the modules of the tree
+    under test that get coverage instrumentation.  A case found by a campaign is replayed like any other."""
+
+    kind = "fuzz"
+
+    def __init__(self, name, run, instrument, mode="structured", strategy=None, decode=None, seeds=None,
+                 runs_thorough=20000, shards_thorough=4, runs_quick=0, shards_quick=0, max_len=4096,
+                 required=None):
+        self.name = name
+        self.run = run
+        self.mode = mode
+        self.strategy = strategy
+        self.decode = decode
+        self.seeds = seeds
+        self.instrument = instrument
+        self.max_len = max_len
+        self.n = {"quick": runs_quick, "thorough": runs_thorough}
+        self.shards = {"quick": shards_quick, "thorough": shards_thorough}
+        self.required = required or {}
+
+    def execute(self, case, ctx):
+        self.run(case, ctx)
+
+
 # --------------------------------------------------------------------------- known findings
 def load_known(prop: str):
     """Returns {sig: text} for `finding:` lines of this property. `fixed:` lines suppress nothing."""
@@ -292,6 +321,7 @@ class JobResult:
         self.wall = 0.0
         self.exhaustive = False
         self.budget_exhausted = False
+        self.engine = None
 
     def commit(self, case, ctx: Ctx, case_json=None):
         for c in ctx.classes:
@@ -381,6 +411,8 @@ def run_job(args):
         excluded = set(known_sigs)
         if sub.kind == "enumerate":
             _job_enumerate(sub, shard, nshards, tier, res, tmpdir, excluded)
+        elif sub.kind == "fuzz":
+            _job_fuzz(modname, sub, shard, tier, seed, res, tmpdir, known_sigs, n_override)
         else:
             n_total = n_override if n_override else sub.n[tier]
             n = max(1, n_total // nshards)
@@ -413,6 +445,60 @@ def _job_enumerate(sub, shard, nshards, tier, res, tmpdir, excluded):
             excluded = excluded | {v.sig}
     res.failures.extend(seen_fail.values())
     res.exhaustive = True
+
+
+def _job_fuzz(modname, sub, shard, tier, seed, res, tmpdir, known_sigs, n_override):
+    """One Atheris campaign in a subprocess; its result file is merged into `res`.  If the engine cannot
+    start (atheris not installed) the sub-check is reported as unavailable, never as a violation."""
+    import re
+    import subprocess
+
+    runs = n_override if n_override else sub.n[tier]
+    deps = os.path.join(VERIF, ".deps")
+    out = os.path.join(tmpdir, "fuzz.json")
+    env = dict(os.environ, PYTHONPATH=os.pathsep.join([REPO, VERIF, deps]), PYTHONHASHSEED="0",
+               VERIF_REPO=REPO, VERIF_KNOWN_SIGS=json.dumps(sorted(known_sigs)))
+    probe = subprocess.run([sys.executable, "-c", "import atheris"], env=env, capture_output=True)
+    if probe.returncode != 0:
+        res.engine = {"atheris": "unavailable: " + probe.stderr.decode(errors="replace")[-200:]}
+        return
+    cmd = [sys.executable, "-m", "vlib.fuzz_driver", modname, sub.name, tier, str(seed), str(shard), str(runs),
+           out, tmpdir]
+    budget = 3600
+    try:
+        p = subprocess.run(cmd, env=env, cwd=VERIF, capture_output=True, timeout=budget)
+        err = p.stderr.decode(errors="replace")
+        rc = p.returncode
+    except subprocess.TimeoutExpired as e:
+        err = (e.stderr or b"").decode(errors="replace")
+        rc = "time budget used up (inconclusive, not a violation)"
+        res.budget_exhausted = True
+    if not os.path.exists(out):
+        raise HarnessError(f"{sub.name}[{shard}]: fuzz driver wrote no result (rc={rc}): {err[-1500:]}")
+    data = json.load(open(out, encoding="utf-8"))
+    if data.get("harness_error"):
+        raise HarnessError(f"{sub.name}[{shard}]: {data['harness_error']}")
+    res.evaluations += data["evaluations"]
+    for k, v in data["classes"].items():
+        res.classes[k] = res.classes.get(k, 0) + v
+    for k, v in data["ambiguous"].items():
+        res.ambiguous[k] = res.ambiguous.get(k, 0) + v
+    res.nontrivial_hashes |= set(data["nontrivial_hashes"])
+    res.samples.extend(data["samples"][:3])
+    for k, v in data["known_hits"].items():
+        res.known_hits[k] = res.known_hits.get(k, 0) + v
+    for sig, msg, case in data["failures"]:
+        res.failures.append((sig, msg, case))
+    cov = re.findall(r"#(\d+)\s+\w+\s+cov: (\d+) ft: (\d+)", err)
+    done = re.findall(r"#(\d+)\s+DONE\s+cov: (\d+) ft: (\d+)", err)
+    last = (done or cov or [("0", "0", "0")])[-1]
+    res.engine = {"atheris": {"execs": data["execs"], "undecodable_buffers": data["invalid_buffers"],
+                              "edges_covered": int(last[1]), "features": int(last[2]),
+                              "corpus": "seeded" if (sub.mode == "raw" and shard % 2 == 1) else "empty",
+                              "exit": rc}}
+    if isinstance(rc, int) and rc not in (0,) and not data["failures"]:
+        # libFuzzer died on something the driver did not classify (interpreter crash, OOM)
+        raise HarnessError(f"{sub.name}[{shard}]: fuzz driver exit {rc}: {err[-1500:]}")
 
 
 def _job_hypothesis(sub, tier, n, seed_value, res, tmpdir, excluded):
@@ -672,6 +758,8 @@ def main_check(prop: str, tier: str, seed: int, only_sub=None, n_override=None, 
         ps["budget_exhausted"] |= r.budget_exhausted
         if r.exhaustive:
             ps["exhaustive"] = True
+        if r.engine:
+            ps.setdefault("engine", []).append(r.engine)
         for k, v in r.classes.items():
             ps["classes"][k] = ps["classes"].get(k, 0) + v
             total.classes[k] = total.classes.get(k, 0) + v
@@ -698,6 +786,8 @@ def main_check(prop: str, tier: str, seed: int, only_sub=None, n_override=None, 
     gaps = []
     if not only_sub and not n_override:
         for sub in mod.SUBCHECKS:
+            if sub.shards[tier] == 0:
+                continue
             for label, minimum in sub.required.items():
                 got = per_sub.get(sub.name, {}).get("classes", {}).get(label, 0)
                 if got < minimum:
@@ -712,6 +802,8 @@ def main_check(prop: str, tier: str, seed: int, only_sub=None, n_override=None, 
                        "shards": ps["shards"]}
         if ps.get("exhaustive"):
             subs_out[k]["exhaustive"] = True
+        if ps.get("engine"):
+            subs_out[k]["engine"] = ps["engine"]
         if ps["budget_exhausted"]:
             subs_out[k]["shrink_budget_exhausted"] = True
     if not total.samples:
